@@ -158,6 +158,40 @@ def lineHit (dt : K) (g : GB K) (r1 : K) (p2 : Part K) : Bool :=
   let rsum := r1 + p2.r
   if gt (lineRmin2 dt g p2) (rsum*rsum) then false else true
 
+
+/-! ### ghost boxes (boundary.c:177-229, `reb_boundary_get_ghostbox`) -/
+
+/-- `r->boundary` -/
+inductive BKind where
+  | none | open | periodic | shear
+deriving Repr, DecidableEq
+
+/-- `(double)i` for a C `int` -/
+def ofI (i : Int) : K := if i < 0 then Scalar.neg (Scalar.ofNat i.natAbs) else Scalar.ofNat i.toNat
+
+/-- `reb_boundary_get_ghostbox(r, i, j, k)`; `fmodF` is C's `fmod`, `omega = r->ri_sei.OMEGA`, `t = r->t` -/
+def ghostBox (fmodF : K → K → K) (kind : BKind) (bx bY bz omega t : K) (i j k : Int) : GB K :=
+  match kind with
+  | .none => ⟨Scalar.zero, Scalar.zero, Scalar.zero, Scalar.zero, Scalar.zero, Scalar.zero⟩     -- `nan_ghostbox` (all zero)
+  | .open | .periodic =>
+    ⟨bx * ofI i, bY * ofI j, bz * ofI k, Scalar.zero, Scalar.zero, Scalar.zero⟩
+  | .shear =>
+    let two : K := Scalar.ofNat 2
+    let vy := Scalar.neg (Scalar.ofNat 3 / two) * ofI i * omega * bx         -- `-1.5*(double)i*OMEGA*r->boxsize.x`
+    let shift :=
+      if i == 0 then Scalar.neg (fmodF (vy * t) bY)
+      else if i > 0 then Scalar.neg (fmodF (vy * t - bY / two) bY) - bY / two
+      else Scalar.neg (fmodF (vy * t + bY / two) bY) + bY / two
+    ⟨bx * ofI i, bY * ofI j - shift, bz * ofI k, Scalar.zero, vy, Scalar.zero⟩
+
+/-- the 27 ghost boxes `i,j,k = -1..1` in the nested order of the search loops -/
+def ghostTable (fmodF : K → K → K) (kind : BKind) (bx bY bz omega t : K) : List (GB K) :=
+  [(-1 : Int), 0, 1].flatMap fun i => [(-1 : Int), 0, 1].flatMap fun j => [(-1 : Int), 0, 1].map fun k =>
+    ghostBox fmodF kind bx bY bz omega t i j k
+
+/-- `-gb` -/
+def negGB (g : GB K) : GB K := ⟨Scalar.neg g.x, Scalar.neg g.y, Scalar.neg g.z, Scalar.neg g.vx, Scalar.neg g.vy, Scalar.neg g.vz⟩
+
 /-! ### the search loops
 
   `ring`  : the ghost boxes in loop order (`gbx`, `gby`, `gbz` nested, each over
